@@ -541,14 +541,7 @@ func (t *ZeroAllocTokenizer) TokenizeHtmlPreserving() ([]Token, error) {
 			} else {
 				// Process variable tags with optimized tokenization
 				if len(tagContent) > 0 {
-					if !strings.ContainsAny(tagContent, ".|[](){}\"',+-*/=!<>%&^~") {
-						// Simple variable name
-						identifier := t.GetStringConstant(tagContent)
-						t.AddToken(TOKEN_NAME, identifier, t.line)
-					} else {
-						// Complex expression
-						t.TokenizeExpression(tagContent)
-					}
+					t.TokenizeExpression(tagContent)
 				}
 			}
 		}
@@ -1269,14 +1262,7 @@ func (t *ZeroAllocTokenizer) TokenizeOptimized() ([]Token, error) {
 				// Process variable tags using optimized tokenization
 				if len(tagContent) > 0 {
 					// Check if it's a simple variable or a complex expression
-					if !strings.ContainsAny(tagContent, ".|[](){}\"',+-*/=!<>%&^~") {
-						// Simple variable name - use string interning for efficiency
-						identifier := Intern(tagContent)
-						t.AddToken(TOKEN_NAME, identifier, t.line)
-					} else {
-						// Complex expression - tokenize fully
-						t.TokenizeExpression(tagContent)
-					}
+					t.TokenizeExpression(tagContent)
 				}
 			}
 		}
